@@ -17,15 +17,15 @@ Vectors(p) ==
         op == Cat(SingleSrc(d), Cat(Prefix(Family), p))
         rs == Run(sp)
         ro == Run(op)
-        es == IF UsesBlocks(p) THEN [out |-> <<>>, m |-> [bad |-> TRUE, hard |-> TRUE]] ELSE EngineRun(sp)
-        eo == IF UsesBlocks(p) THEN [out |-> <<>>, m |-> [bad |-> TRUE, hard |-> TRUE]] ELSE EngineRun(op)
+        es == EngineRun(sp)
+        eo == EngineRun(op)
     IN (IF rs.hard THEN <<>>
         ELSE <<[ast |-> sp, den |-> rs.out, lo |-> rs.lo, hi |-> rs.hi, ordered |-> FALSE,
-                kind |-> "stream", eng |-> es.out, engok |-> ~(es.m.bad \/ es.m.hard)]>>)
+                kind |-> "stream", eng |-> NormOut(es.out), engok |-> ~(es.m.bad \/ es.m.hard)]>>)
        \o
        (IF ro.hard THEN <<>>
         ELSE <<[ast |-> op, den |-> ro.out, lo |-> ro.lo, hi |-> ro.hi,
-                ordered |-> OrderFixed(p), kind |-> "single", eng |-> eo.out,
+                ordered |-> OrderFixed(p), kind |-> "single", eng |-> NormOut(eo.out),
                 engok |-> ~(eo.m.bad \/ eo.m.hard)]>>)
 
 \* Programs that are not closed / not well-formed: the compiler must reject
